@@ -120,10 +120,6 @@ impl Meta {
                             let mut inner = false;
                             go(m, &mut inner, v);
                         }
-                    } else {
-                        panic!("bpaf usage BUG: adjacent group should start with a required item, \
-                        not with an alternative, a hidden or an optional one, but {:?} breaks this rule. \
-                        See bpaf documentation for `adjacent` for details.", m);
                     }
                 }
                 Meta::Optional(m)
@@ -141,6 +137,37 @@ impl Meta {
             println!("Checking\n{:#?}", self);
         }
         go(self, &mut is_pos, verbose);
+    }
+
+    /// do a nested invariant check, panics for an adjacent group that has no first item to
+    /// anchor it. Separate from the positional check, which help rendering runs as well
+    pub(crate) fn adjacent_invariant_check(&self) {
+        match self {
+            Meta::And(xs) | Meta::Or(xs) => xs.iter().for_each(Meta::adjacent_invariant_check),
+            Meta::Item(i) => {
+                if let Item::Command { meta, .. } = &**i {
+                    meta.adjacent_invariant_check();
+                }
+            }
+            Meta::Adjacent(m) => {
+                assert!(
+                    Meta::first_item(m).is_some(),
+                    "bpaf usage BUG: adjacent group should start with a required item, \
+                    not with an alternative, a hidden or an optional one, but {:?} breaks this rule. \
+                    See bpaf documentation for `adjacent` for details.",
+                    m
+                );
+                m.adjacent_invariant_check();
+            }
+            Meta::Optional(m)
+            | Meta::Required(m)
+            | Meta::Many(m)
+            | Meta::CustomUsage(m, _)
+            | Meta::Subsection(m, _)
+            | Meta::Strict(m)
+            | Meta::Suffix(m, _) => m.adjacent_invariant_check(),
+            Meta::Skip => {}
+        }
     }
 
     pub(crate) fn normalized(&self, for_usage: bool) -> Meta {
